@@ -116,8 +116,14 @@ def comp_instances(h, legacy, patch=False):
                     uuid = b["uuid"]
             if uuid and (uuid, ev["ty"]) not in [k[:2] for k in keys]:
                 keys.append((uuid, ev["ty"], idx))
+    # keys that ever carry a value not equal to itself (NaN) are outside the model's value domain: the oracle judges them
+    nan_keys = set()
+    binds_ = {b["h"]: b["uuid"] for b in h.events if b["ev"] == "bind"}
+    for ev in h.events:
+        if ev["ev"] == "phase" and ev.get("nan") and ev["h"] in binds_:
+            nan_keys.add((binds_[ev["h"]], ev["ty"]))
     for uuid, ty, start in keys:
-        if ty not in SYS_DETECT:
+        if ty not in SYS_DETECT or (uuid, ty) in nan_keys:
             continue
         path = h.types[ty]
         vt = ValTokens(ty == "V" and patch)
@@ -359,6 +365,7 @@ FAULT_STEPS = {
     "comp+sender_despawns_after_write": ("1.2.3", ["ac:1:1;dc:1"]),
     "reparent+old_parent_despawn_cmd": ("1.2.3", ["ad:2;{P}:1:3:1", "{P}:1:3:1;ad:2"]),
     "delete_parent_with_child": ("1.2.3", ["dc:2"]),
+    "comp_large_value": ("1.2.3", ["ac:1:1"]),
 }
 
 
@@ -401,6 +408,14 @@ def oracle_fault(h):
             vals.add(comp_value(st, uuid, "A") if (st and uuid) else None)
         if len(vals) != 1 or None in vals:
             fails.append(("C08", "the peer stopped replicating after the fault case: a fresh entity/value did not reach every peer", {"case": h.header.get("case")}))
+    if h.header.get("case") == "comp_large_value":
+        # the message is meaningful: it must have been applied, not ignored
+        big = set()
+        for p in h.peers():
+            st = last_state(h, len(h.events), p)
+            big.add(tuple(sorted(x["comps"].get("V", "") for x in (st["ents"] if st else []) if x["comps"].get("V", "").startswith("sha:"))))
+        if len(big) != 1 or () in big:
+            fails.append(("C08", "a large component value (one message of 70 - 300 kB) was not applied on every peer", {"case": "comp_large_value"}))
     return fails
 
 
